@@ -49,7 +49,10 @@ type script struct {
 	// emptyFirst: the handler's very first action is an empty Write ("send the headers now"),
 	// which starts the response with the implicit 200; what it sets afterwards comes too late
 	emptyFirst bool
-	plainTop   bool // the top-level writer supports neither Hijack nor Flush
+	// flushRC: flush through http.NewResponseController(w).Flush() (the way handlers written for
+	// current net/http do) instead of asserting http.Flusher
+	flushRC  bool
+	plainTop bool // the top-level writer supports neither Hijack nor Flush
 }
 
 type outcome struct {
@@ -59,6 +62,7 @@ type outcome struct {
 	hijackErr     error
 	warm          int // warm-up invocations
 	flushAttempts int
+	flushErr      error // http.ResponseController.Flush failed
 }
 
 func (s *script) handler(o *outcome) http.Handler {
@@ -111,7 +115,12 @@ func (s *script) handler(o *outcome) http.Handler {
 		}
 		for _, b := range s.writes {
 			_, _ = w.Write(b)
-			if s.flush {
+			if s.flush && s.flushRC {
+				o.flushAttempts++
+				if err := http.NewResponseController(w).Flush(); err != nil {
+					o.flushErr = err
+				}
+			} else if s.flush {
 				if f, ok := w.(http.Flusher); ok {
 					o.flushAttempts++
 					f.Flush()
@@ -147,6 +156,7 @@ func genScript(t *rapid.T) *script {
 		}
 	}
 	s.flush = rapid.Bool().Draw(t, "flush")
+	s.flushRC = rapid.Bool().Draw(t, "flushThroughResponseController")
 	s.emptyFirst = s.info == 0 && rapid.IntRange(0, 7).Draw(t, "emptyFirstWrite") == 0
 	if len(s.writes) > 0 && rapid.IntRange(0, 3).Draw(t, "trailers") == 0 {
 		for i := rapid.IntRange(1, 2).Draw(t, "ntrailers"); i > 0; i-- {
@@ -331,6 +341,11 @@ func wrap(t *rapid.T, kind string, next http.Handler, intervene bool, custom ...
 		}
 		if rapid.IntRange(0, 3).Draw(t, "verboseBuffer") == 0 {
 			opts = append(opts, buffer.Verbose(true), buffer.Logger(formatLogger{}))
+		}
+		if rapid.IntRange(0, 2).Draw(t, "retryConfigured") == 0 {
+			// the documented retry expression: it only speaks about 502 and 504, which the
+			// handlers of these stacks never answer, so the buffer has no reason to replay
+			opts = append(opts, buffer.Retry("IsNetworkError() && Attempts() <= 2"))
 		}
 		h, err := buffer.New(next, opts...)
 		must(err)
@@ -553,6 +568,9 @@ func TestC20_Transparent(t *testing.T) {
 				if final > 1 {
 					t.Fatalf("the stack wrote %d final statuses %v\n%s", final, rec1.HeaderCalls, desc)
 				}
+			}
+			if !hasBuffer && !plain && (o1.flushErr == nil) != (o0.flushErr == nil) {
+				t.Fatalf("http.ResponseController.Flush: %v through the stack, %v for the bare handler (no buffer in the stack)\n%s", o1.flushErr, o0.flushErr, desc)
 			}
 			if !hasBuffer && rec1.Flushes != rec0.Flushes {
 				t.Fatalf("%d flushes reached the client through the stack, the bare handler produces %d\n%s", rec1.Flushes, rec0.Flushes, desc)
